@@ -13,7 +13,7 @@ var alphaWFtok = []string{"a", mCross, "\n", "?", mStart, mEnd, "\ufffd", "é"}
 
 func init() {
 	checks["C07"] = checkC07
-	rules["C07"] = "every string of <=n tokens over {a,‹,›,×,LF,E2,80,B9}; all well-formed ones additionally against a scanner-based model of Redact/StripMarkers; all ordered pairs of short well-formed valid-UTF-8 redactables for the concatenation laws; distinct = distinct Redact outputs"
+	rules["C07"] = "every string of <=n tokens over {a,‹,›,×,LF,E2,80,B9,...}; every 3-byte window in 3 contexts and all pairs of mask look-alikes of the markers; all well-formed ones additionally against a scanner-based model of Redact/StripMarkers; all ordered pairs of short well-formed valid-UTF-8 redactables for the concatenation laws; distinct = distinct Redact outputs"
 	replayers["C07/arbitrary"] = func(c *Ctx, raw json.RawMessage) string {
 		var cs struct {
 			S []byte `json:"s"`
@@ -211,6 +211,55 @@ func checkC07(c *Ctx) {
 		w.SeenB(cur)
 	})
 	replayers["C07/nested-splits"] = replayers["C07/arbitrary"]
+	// every 3-byte window b0 b1 b2 in three contexts (alone, inside an envelope, between two envelopes): a scanner
+	// that recognises markers by anything weaker than byte equality (masks, first/last byte, rune decoding of
+	// ill-formed input) takes some non-marker window for a marker. quick: b0 over the bytes sharing a nibble
+	// with the markers' lead byte; thorough: all 2^24 windows.
+	var leads []int
+	for b := 0; b < 256; b++ {
+		if !c.Quick() || b&0x0f == 0x02 || b&0xf0 == 0xe0 {
+			leads = append(leads, b)
+		}
+	}
+	winCtx := [][2]string{{"", ""}, {"k" + mStart + "x", "y" + mEnd + "t"}, {mStart + "x" + mEnd, mStart + "y" + mEnd}}
+	c.Section("C07/byte-windows", map[string]interface{}{"first_bytes": len(leads), "second_third_bytes": 65536, "contexts": []string{"alone", "inside an envelope", "between two envelopes"}}, len(leads)*256, func(i int, w *Worker) {
+		b0, b1 := byte(leads[i/256]), byte(i%256)
+		buf := make([]byte, 0, 32)
+		for b2 := 0; b2 < 256; b2++ {
+			for _, cx := range winCtx {
+				buf = append(append(append(buf[:0], cx[0]...), b0, b1, byte(b2)), cx[1]...)
+				w.Eval()
+				if cl, d := c07Eval(buf, w.Retained()); cl != "" {
+					w.Fail(cl, map[string]interface{}{"s": append([]byte(nil), buf...), "quoted": q(string(buf))}, d)
+				}
+			}
+		}
+		w.SeenB([]byte{b0, b1})
+	})
+	replayers["C07/byte-windows"] = replayers["C07/arbitrary"]
+	// two windows from the marker look-alikes under bit masks (lead byte equal in the low nibble, continuation
+	// bytes equal in the low six bits), with text around them: a fake start is only visible with a (fake) end
+	var alias [][]byte
+	for b0 := 0x02; b0 < 256; b0 += 16 {
+		for b1 := 0; b1 < 256; b1 += 64 {
+			for _, lo := range []int{0x39, 0x3a} {
+				for b2 := lo; b2 < 256; b2 += 64 {
+					alias = append(alias, []byte{byte(b0), byte(b1), byte(b2)})
+				}
+			}
+		}
+	}
+	c.Section("C07/alias-pairs", map[string]interface{}{"windows": len(alias), "shape": "k W1 m W2 t"}, len(alias), func(i int, w *Worker) {
+		for _, w2 := range alias {
+			x := append(append(append(append([]byte("k"), alias[i]...), 'm'), w2...), 't')
+			w.Eval()
+			if cl, d := c07Eval(x, w.Retained()); cl != "" {
+				w.Fail(cl, map[string]interface{}{"s": x, "quoted": q(string(x))}, d)
+			}
+		}
+		w.SeenB(alias[i])
+	})
+	replayers["C07/alias-pairs"] = replayers["C07/arbitrary"]
 	// the marker accessors hand out byte slices: writing into one must not change what Redact/StripMarkers do
 	c.Section("C07/accessor-isolation", map[string]interface{}{"accessors": "StartMarker, EndMarker, RedactedMarker", "after_scribbling": "all strings of <=4 tokens re-checked"}, 1, func(_ int, w *Worker) {
 		acc := []struct {
